@@ -133,6 +133,14 @@ def r2(ctx, facts):
     ok = all(b.dominates(sb, c.bb) and (sb != c.bb) or sb == c.bb for c in clones)
     # same block: statement precedes terminator, fine
     r.instance("pool-records-before-snapshot", ok, "self.current_keyspace must be stored before self.conns is cloned (a connection arriving in between is caught by the gate)", clones[0].span)
+    # round 10: recording the keyspace for pools created later and taking the snapshot of nodes for the fan-out are one
+    # sequential step of the worker task; a fan-out started from anywhere else can interleave with apply_metadata_update
+    # (a node whose pool was just created with the OLD keyspace is not in the published state the fan-out covers)
+    from ..util import callers_keys
+    cs = callers_keys(facts, "scylla::cluster::worker::ClusterWorker::send_use_keyspace")
+    r.instance("fanout-started-by-the-worker-only", bool(cs) and all(x.startswith("ClusterWorker::") for x in cs),
+               "ClusterWorker::send_use_keyspace is called from %s: the USE fan-out must be started by the cluster worker itself, in the step that recorded the keyspace, "
+               "so that it cannot run concurrently with a topology update that creates pools" % cs, None)
     # cluster worker
     wb = facts.find(r"^scylla::cluster::worker::ClusterWorker::work::\{closure#0\}$")
     if len(wb) != 1:
